@@ -392,6 +392,16 @@ func TestC31(t *testing.T) {
 				r.Violation("input-modified-"+f, ci, fmt.Sprintf("MergeConfig(a,b) modified its %s input: %s was %s, is now %s", []string{"first", "second"}[i], f, fieldStr([]*agent.Config{A0, B0}[i], f), fieldStr(in, f)), wit())
 			}
 		}
+		// a result must stay what it was when its inputs are merged again with something else
+		if !viol {
+			_ = agent.MergeConfig(a, c31CloneCfg(C0))
+			_ = agent.MergeConfig(c31CloneCfg(C0), b)
+			for _, f := range diff(ab, want) {
+				viol = true
+				r.Count("result_changed_later_"+f, 1)
+				r.Violation("result-changed-later-"+f, ci, fmt.Sprintf("MergeConfig(a,b).%s was %s; after a was merged with another source it reads %s (the result shares memory with its input)", f, fieldStr(want, f), fieldStr(ab, f)), wit())
+			}
+		}
 		// associativity + no modification through the chained merges
 		abSnap := c31CloneCfg(ab)
 		left := agent.MergeConfig(ab, c)
